@@ -1,7 +1,140 @@
-/- stub: overwritten by the builder of this engine -/
-import Driver.Common
-open Lean FV FV.Drv
+/-
+Driver for E3/ParseCache (C12): replays a request history on the state machine of
+`Model/ParseCache.lean` over symbolic trees and prints what every op yields and what a probe set is
+answered afterwards.
 
-def handle (_ : Json) : Except String Json := throw "driver not implemented"
+request  {"op":"replay","config":"generated"|{…},"complete":[[core,[ids]]…],"partial":[[core,[ids]]…],
+          "history":[op…],"probe":[req…]}
+  core = [word,sbit,start,hook]   req = [word,sbit,start,hook,mode(0|1),cf(0|1)]
+  op   = ["start",req] | ["pull",g] | ["drop",g] | ["mutate",o,"node"|"list",fn]
+answer   {"trace":[null|term…],"tainted":bool,"answers":[[term…]…]}
+  term = n (fresh parser-side tree number n) | ["e",fn,term] (edit fn applied) | ["v",term] (collapsed)
+request  {"op":"config"} → the generated configuration
+-/
+import Driver.Common
+import Model.ParseCache
+import Generated.Cache
+open Lean FV FV.Drv FV.PC
+
+inductive STerm where
+  | base (n : Nat)
+  | edit (e : Nat) (t : STerm)
+  | view (t : STerm)
+  deriving DecidableEq, Repr
+
+partial def jTerm : STerm → Json
+  | .base n => Json.num (JsonNumber.fromNat n)
+  | .edit e t => Json.arr #["e", Json.num (JsonNumber.fromNat e), jTerm t]
+  | .view t => Json.arr #["v", jTerm t]
+
+def natAt (a : Array Json) (i : Nat) : Except String Nat := (a[i]?.getD Json.null).getNat?
+
+def coreOf (j : Json) : Except String Core := do
+  let a ← j.getArr?
+  if a.size < 4 then throw "core needs 4 numbers"
+  return ⟨← natAt a 0, ← natAt a 1, ← natAt a 2, ← natAt a 3⟩
+
+def reqOfJson (j : Json) : Except String Req := do
+  let a ← j.getArr?
+  if a.size != 6 then throw "req needs 6 numbers"
+  let m ← natAt a 4
+  let cf ← natAt a 5
+  if m > 1 || cf > 1 then throw "mode / cf must be 0 or 1"
+  return ⟨← coreOf j, if m == 1 then .incomplete else .complete, cf == 1⟩
+
+def opOf (j : Json) : Except String Op := do
+  let a ← j.getArr?
+  let tag ← (a[0]?.getD Json.null).getStr?
+  match tag with
+  | "start" => return .start (← reqOfJson (a[1]?.getD Json.null))
+  | "pull" => return .pull (← natAt a 1)
+  | "drop" => return .drop (← natAt a 1)
+  | "mutate" =>
+    let k ← (a[2]?.getD Json.null).getStr?
+    let kind ← match k with
+      | "node" => pure EditKind.node
+      | "list" => pure EditKind.list
+      | _ => throw s!"edit kind {k}"
+    return .mutate (← natAt a 1) kind (← natAt a 3)
+  | _ => throw s!"unknown history op {tag}"
+
+def tableOf (j : Json) : Except String (List (Core × List Nat)) := do
+  let a ← j.getArr?
+  a.toList.mapM (fun e => do
+    let p ← e.getArr?
+    let c ← coreOf (p[0]?.getD Json.null)
+    let ids ← natArr (p[1]?.getD Json.null)
+    return (c, ids))
+
+def lookupT (tab : List (Core × List Nat)) (c : Core) : List STerm :=
+  match tab.find? (fun p => p.1 == c) with
+  | some p => p.2.map STerm.base
+  | none => []
+
+def oracleOfTables (comp part : List (Core × List Nat)) : Oracle STerm :=
+  { complete := lookupT comp, partialRaw := lookupT part,
+    view := fun cf t => if cf then t else .view t, apply := fun e t => .edit e t }
+
+def shareOf (s : String) : Except String Share :=
+  match s with
+  | "none" => pure .none | "lists" => pure .lists | "whole" => pure .whole
+  | _ => throw s!"share {s}"
+
+def configOf (j : Json) : Except String Config := do
+  match j with
+  | .str "generated" => return Generated.cacheConfig
+  | .str "afterFix" => return Config.afterFix
+  | .str "preFix" => return Config.preFix
+  | .str "isolated" => return Config.isolated
+  | _ =>
+    let pol ← j.getObjValAs? String "policy"
+    let policy ← match pol with
+      | "storeWhenExhausted" => pure Policy.storeWhenExhausted
+      | "appendWhileYielding" => pure Policy.appendWhileYielding
+      | _ => throw s!"policy {pol}"
+    return { policy := policy
+             hitCopies := ← j.getObjValAs? Bool "hitCopies"
+             hitYieldsCf := ← j.getObjValAs? Bool "hitYieldsCf"
+             missShare := ← shareOf (← j.getObjValAs? String "missShare")
+             missShareCf := ← shareOf (← j.getObjValAs? String "missShareCf")
+             keySbit := ← j.getObjValAs? Bool "keySbit"
+             keyStart := ← j.getObjValAs? Bool "keyStart"
+             keyHook := ← j.getObjValAs? Bool "keyHook"
+             keyMode := ← j.getObjValAs? Bool "keyMode"
+             sharedRegs := ← j.getObjValAs? Bool "sharedRegs" }
+
+def jShare : Share → Json
+  | .none => "none" | .lists => "lists" | .whole => "whole"
+
+def jConfig (c : Config) : Json :=
+  Json.mkObj [("policy", match c.policy with
+                 | .storeWhenExhausted => "storeWhenExhausted"
+                 | .appendWhileYielding => "appendWhileYielding"),
+              ("hitCopies", c.hitCopies), ("hitYieldsCf", c.hitYieldsCf), ("missShare", jShare c.missShare),
+              ("missShareCf", jShare c.missShareCf), ("keySbit", c.keySbit), ("keyStart", c.keyStart),
+              ("keyHook", c.keyHook), ("keyMode", c.keyMode), ("sharedRegs", c.sharedRegs)]
+
+def jOptTerm : Option STerm → Json
+  | some t => jTerm t
+  | none => Json.null
+
+def handle (j : Json) : Except String Json := do
+  let op ← j.getObjValAs? String "op"
+  match op with
+  | "config" => return jConfig Generated.cacheConfig
+  | "replay" =>
+    let cfg ← configOf (← j.getObjVal? "config")
+    let comp ← tableOf (← j.getObjVal? "complete")
+    let part ← tableOf (← j.getObjVal? "partial")
+    let O := oracleOfTables comp part
+    let hist ← (← (← j.getObjVal? "history").getArr?).toList.mapM opOf
+    let probe ← (← (← j.getObjVal? "probe").getArr?).toList.mapM reqOfJson
+    let trace := traceFrom cfg O (State.init : State STerm) hist
+    let s := replay cfg O hist
+    return Json.mkObj [
+      ("trace", Json.arr (trace.map jOptTerm).toArray),
+      ("tainted", s.tainted),
+      ("answers", Json.arr (probe.map (fun r => Json.arr ((answer cfg O s r).map jTerm).toArray)).toArray)]
+  | _ => throw s!"unknown op {op}"
 
 def main : IO Unit := run handle
